@@ -35,12 +35,12 @@ CHECKS = {
              "IssueOncePerPayment in every state; NUT-20 signature classes from the generator.",
         note=TRUST),
     "C05": dict(
-        category="model_checking", design_ref="§5 C05",
-        technique="TLA+ MintAPI melt machine (C05 table as allowed-outcome sets) + TLC trace validation of scripted Lightning answers",
-        text=SEQ + "Melts are driven with scripted backend answers (pay: success/pending/failed/error; status: notfound/error/failed/"
-             "pending/succeeded) resolved through melt, quote polls and state checks; TLC checks each resulting state against the "
-             "allowed-outcome table.",
-        note=TRUST),
+        category="fault_enumeration", design_ref="§5 C05",
+        technique="TLA+ C05Scripts.tla enumerated by TLC (every Lightning answer script x resolution path), replayed on the real mint, judged by MintAPI's C05 table through TLC trace validation",
+        text="The fault space the property names is enumerated completely (3334 scripts: pay answer x status sequences of length <= 3 x poll/state-check "
+             "for every later lookup); each is a history on the real mint with a scripted backend; after every step TLC checks the allowed "
+             "(quote state, input state) pairs of the C05 table, the melt / poll replies, that locked inputs are unusable and released ones usable.",
+        note="Scripts longer than 4 answers are not covered; the Lightning model stands in for LND/CLN."),
     "C06": dict(
         category="exploration", design_ref="§5 C06",
         technique="TLA+ MintAPI frame condition (reject => unchanged) checked by TLC on traces of adversarial histories",
